@@ -7,7 +7,7 @@ package ws
 // the perturbed element carries symbolic bytes.
 func C09_upgrade_template() {
 	// environment: one variation at a time (pairwise with the perturbation below)
-	env := vChoose("env", 6)
+	env := vChoose("env", 7)
 	eol := "\r\n"
 	if env == 1 {
 		eol = "\n"
@@ -157,7 +157,7 @@ func C09_upgrade_template() {
 			wantStatus = 426
 		}
 	case 7: // Sec-WebSocket-Key
-		switch vChoose("seckey", 4) {
+		switch vChoose("seckey", 6) {
 		case 0:
 			drop = 4
 			compliant = false
@@ -172,6 +172,14 @@ func C09_upgrade_template() {
 			wantStatus = 400
 		case 3:
 			keyLine = []byte("SEC-WEBSOCKET-KEY:  " + key + " ")
+		case 4: // sent twice, one of them not 24 characters long: "always refused"
+			keyLine = []byte("Sec-WebSocket-Key: " + key + eol + "Sec-WebSocket-Key: " + key[:23])
+			compliant = false
+			wantStatus = 400
+		case 5:
+			keyLine = []byte("Sec-WebSocket-Key: " + key + "=" + eol + "Sec-WebSocket-Key: " + key)
+			compliant = false
+			wantStatus = 400
 		}
 	case 8: // an unknown header, possibly without a colon
 		if vChoose("extra", 2) == 0 {
@@ -261,8 +269,12 @@ func C09_upgrade_template() {
 		req = append(req, e...)
 		req = append(req, eol...)
 	}
+	if env == 6 { // line-by-line delivery ending with a long header: refills slide over parsed bytes
+		req = append(req, "X-Pad: pppppppppppppppppppppppppppppppppppppppppppppppppppppppppppppppppppppppppppppppppppppppppppppppppppppppppppppppppppppppppppppppppppppppppppppppppppppp"...)
+		req = append(req, eol...)
+	}
 	req = append(req, eol...)
-	conn := &vConn{in: req, one: env == 4}
+	conn := &vConn{in: req, one: env == 4, lines: env == 6}
 	if env == 5 {
 		u.ReadBufferSize = 256
 	}
